@@ -10,7 +10,11 @@ import (
 
 // guardAny matches if any alternative matches (a disjunction established by crossing either edge).
 func guardAny(name string, gs ...Guard) Guard {
-	return Guard{Name: name, Match: func(w *World, f *ssa.Function, a Atom) bool {
+	key := "any:"
+	for _, g := range gs {
+		key += "[" + g.Name + "|" + g.Key + "]"
+	}
+	return Guard{Name: name, Key: key, Match: func(w *World, f *ssa.Function, a Atom) bool {
 		for _, g := range gs {
 			if g.Match(w, f, a) {
 				return true
